@@ -247,11 +247,22 @@ func buildScenario(kind string, r *rng, tier string) *scenario {
 		nops = 40
 		sc.procs = 8
 	}
+	if kind == "w-ctypes" {
+		sc.g, nops = 8, 3
+		sc.sheets = []string{"Sheet1", "Data2"}
+	}
+	if kind == "w-row" {
+		sc.g, nops = 4, 1
+		sc.sheets = []string{"Sheet1"}
+	}
 	if kind == "sheetrow" {
-		if sc.g < 4 {
-			sc.g = 4
+		if sc.g < 6 {
+			sc.g = 6
 		}
 		sc.procs = 8
+		if nops < 24 {
+			nops = 24
+		}
 	}
 	if kind == "mix" && tier != "thorough" {
 		nops = nops/2 + 4
@@ -291,7 +302,7 @@ func buildScenario(kind string, r *rng, tier string) *scenario {
 				if i == 0 {
 					kindSel = []string{"dvadd", "colvis", "setval", "setval", "colw", "getval"}[t%6]
 				} else {
-					kindSel = pickW(w, "dvadd", 15, "colvis", 10, "setval", 55, "getval", 12, "addpic", 8)
+					kindSel = pickW(w, "dvadd", 15, "colvis", 10, "setval", 60, "getval", 15)
 				}
 			case "sheetrow":
 				kindSel = pickW(w, "sheetrow", 70, "setval", 20, "getval", 10)
@@ -305,6 +316,10 @@ func buildScenario(kind string, r *rng, tier string) *scenario {
 				kindSel = pickW(w, "setstyle", 50, "newstyle", 50)
 			case "w-colstyle": // witness: SetColStyle while rows are being added
 				kindSel = pickW(w, "colstyle", 40, "setval", 60)
+			case "w-row": // witness: one long SetSheetRow per goroutine on the same row, started together
+				kindSel = "sheetrow"
+			case "w-ctypes": // witness: first AddPicture calls on a reopened workbook (lazy content-types decode)
+				kindSel = "addpic"
 			case "w-getpic": // witness: GetPictures while the first picture of the sheet is added
 				kindSel = pickW(w, "addpic", 40, "getpic", 60)
 			default: // mix
@@ -439,8 +454,11 @@ func buildScenario(kind string, r *rng, tier string) *scenario {
 				if kind == "sheetrow" {
 					n = 60
 				}
+				if kind == "w-row" {
+					n = 1200
+				}
 				row0 := 92 + t
-				if !private || kind == "sheetrow" {
+				if !private || kind == "sheetrow" || kind == "w-row" {
 					row0 = 91
 				}
 				o := op{Fn: "SetSheetRow", Kind: "sheetrow", Sheet: sheet, Cell: "B" + strconv.Itoa(row0)}
@@ -493,6 +511,8 @@ func buildScenario(kind string, r *rng, tier string) *scenario {
 			}
 			return nil
 		}
+	case "w-ctypes":
+		sc.reopen = true
 	case "reopen":
 		sc.reopen = true
 		sc.prep = func(f *xl.File) error {
@@ -1034,7 +1054,11 @@ wait:
 			}
 		}
 		if err != nil || !ok {
-			addFail("lin:picture-lost-or-replaced", fmt.Sprintf("%s: picture %s added there; GetPictures returns %d pictures, none with its content (err=%v)", k, picExpect[k], len(pics), err))
+			sig := "lin:picture-replaced"
+			if len(pics) == 0 {
+				sig = "lin:picture-lost"
+			}
+			addFail(sig, fmt.Sprintf("%s: picture %s added there; GetPictures returns %d pictures, none with its content (err=%v)", k, picExpect[k], len(pics), err))
 		}
 	}
 	// the workbook must still be a savable, re-openable package holding the same cells
@@ -1077,7 +1101,7 @@ var kinds = []string{"cells", "styles", "cols", "dviter", "pictures", "reopen", 
 
 // witness scenarios run first on every run: each hammers one pair of functions for which the
 // model predicts (or predicted, before a fix) unsynchronised access
-var witnessKinds = []string{"w-time", "w-fmt", "w-setstyle", "w-colstyle", "formulas", "reopen", "w-getpic", "sheetrow"}
+var witnessKinds = []string{"w-time", "w-fmt", "w-setstyle", "w-colstyle", "formulas", "reopen", "w-getpic", "w-row", "w-ctypes"}
 
 func main() {
 	seed := flag.Uint64("seed", 1, "")
@@ -1089,7 +1113,7 @@ func main() {
 	flag.Parse()
 	total := *n
 	if total == 0 {
-		total = 48
+		total = 50
 		if *tier == "thorough" {
 			total = 700
 		}
